@@ -173,6 +173,7 @@ class SkBaseTransformLearner(SkBaseTransform):
         self.model.set_params(**pars)
         # binds the method of the current model (it may have been replaced)
         self._set_method(self.method)
+        return self
 
     #################
     # common methods
